@@ -9,7 +9,10 @@ MC_UNIVERSE = {
     "MCDirectory_empty.cfg": (["a", "b"], ["x", "e"]),
     "MCDirectory_thorough.cfg": (["a", "b", "c"], ["x", "y"]),
     "MCDirectory_deep.cfg": (["a", "b", "c"], ["x", "y", "z"]),
+    "MCDirectory_other.cfg": (["a", "b"], ["x", "y"]),
 }
+# replay caps per configuration in the quick tier (the model itself is always checked exhaustively)
+QUICK_CAPS = {"MCDirectory_other.cfg": 2500}
 
 DEFAULT_CELL = {"par": "disabled", "cache": "none", "reopen": "same", "wire": False}
 
@@ -36,6 +39,8 @@ def export_behaviours(chk, cfgs, simulate=None):
                 keep.append(r)
             reps = keep
         cap = int(os.environ.get("VERIF_DIR_CAP", "40000"))
+        if chk.tier == "quick" and cfg in QUICK_CAPS:
+            cap = QUICK_CAPS[cfg]
         if len(reps) > cap:
             # the model itself is checked exhaustively by TLC; only the replay on the real code is sampled
             chk.cov["notes"].append(f"{cfg}: {len(reps)} transitions exported, seeded sample of {cap} replayed on the implementation")
@@ -57,8 +62,10 @@ def make_behaviours(chk, exported, kinds, cfg_policy="alt", cells=None, conc_var
                 cv = conc_variants[i % len(conc_variants)]
                 if cv is None:
                     cv = 3 + (chk.seed % 1000)
+                # publishes of labels outside the modelled set: 1-3 labels, two groups (a repeated group is an update)
+                steps2 = [dict(st, count=1 + k % 3, tag=k % 2) if st.get("op") == "publish_other" else st for k, st in enumerate(steps)]
                 bs.append({"id": len(bs) + 1, "cfg": c, "conc": cv, "cell": cell, "labels": labels, "values": values,
-                           "kinds": kinds, "sweep": "every" if deep else "end", "steps": steps})
+                           "kinds": kinds, "sweep": "every" if deep else "end", "steps": steps2})
         i += 1
     return bs
 
@@ -105,15 +112,34 @@ def count_nontrivial(chk, traces, pred, nsamples=3):
                     chk.cov["samples"].append(evs[:12])
     chk.cov["distinct_nontrivial"] += len(seen)
 
-def dir_check(pid, kinds, nontrivial, rule, cfg_policy="alt", extra_quick_cfgs=(), thorough_cfgs=None, assumptions=()):
+def long_histories(kinds):
+    """Hand-made behaviours beyond the bounded models (validated by the same trace specification): a 9-epoch history that
+    mixes inserts, updates, re-submissions and publishes of other labels, observed after every step; and a SCALE history in
+    which 1,100 other labels are registered and then all updated (more than 2,048 elements in one append-only step)."""
+    labels, values = ["a", "b", "c"], ["x", "y", "z"]
+    long9 = [{"op": "publish", "batch": [["a", "x"]]}, {"op": "publish", "batch": [["b", "x"], ["a", "y"]]}, {"op": "publish_other", "count": 2, "tag": 0},
+             {"op": "publish", "batch": [["c", "z"]]}, {"op": "publish", "batch": [["a", "y"], ["b", "y"]]}, {"op": "publish_other", "count": 2, "tag": 0},
+             {"op": "publish", "batch": [["a", "z"], ["c", "x"]]}, {"op": "publish_other", "count": 3, "tag": 1}, {"op": "publish", "batch": [["b", "z"]]}]
+    scale = [{"op": "publish", "batch": [["a", "x"]]}, {"op": "publish_other", "count": 1100, "tag": 7}, {"op": "publish", "batch": [["a", "y"], ["b", "x"]]},
+             {"op": "publish_other", "count": 1100, "tag": 7}]
+    out = []
+    for c in ("wa", "exp"):
+        out.append({"cfg": c, "conc": 0, "cell": dict(DEFAULT_CELL), "labels": labels, "values": values, "kinds": kinds, "sweep": "every", "steps": long9})
+        out.append({"cfg": c, "conc": 0, "cell": dict(DEFAULT_CELL, cache="default"), "labels": labels, "values": values, "kinds": kinds, "sweep": "end", "steps": scale})
+    return out
+
+def dir_check(pid, kinds, nontrivial, rule, cfg_policy="alt", extra_quick_cfgs=(), thorough_cfgs=None, assumptions=(), with_long=False):
     chk = Check(pid, "model_checking")
-    cfgs = ["MCDirectory_quick.cfg", "MCDirectory_empty.cfg"] + [c for c in extra_quick_cfgs if c != "MCDirectory_empty.cfg"]
+    cfgs = ["MCDirectory_quick.cfg", "MCDirectory_empty.cfg", "MCDirectory_other.cfg"] + [c for c in extra_quick_cfgs if c != "MCDirectory_empty.cfg"]
     sim = None
     if chk.tier == "thorough":
-        cfgs = thorough_cfgs or ["MCDirectory_quick.cfg", "MCDirectory_empty.cfg", "MCDirectory_thorough.cfg", "MCDirectory_deep.cfg"]
+        cfgs = thorough_cfgs or ["MCDirectory_quick.cfg", "MCDirectory_empty.cfg", "MCDirectory_other.cfg", "MCDirectory_thorough.cfg", "MCDirectory_deep.cfg"]
         sim = f"num=60 -depth 24 -seed {chk.seed}"
     exported = export_behaviours(chk, cfgs, simulate=sim)
     bs = make_behaviours(chk, exported, kinds, cfg_policy="both" if chk.tier == "thorough" else cfg_policy)
+    if with_long:
+        for b in long_histories(kinds):
+            bs.append(dict(b, id=len(bs) + 1))
     traces = run_dir_harness(chk, bs)
     results = validate_traces("TraceDirectory", "TraceDirectory.cfg", traces, chk.wd, chunk=8000 if chk.tier == "thorough" else None)
     chk.handle_validation(results)
@@ -152,7 +178,7 @@ def c03():
         lambda evs: sum(1 for e in evs if e["ev"] == "history" and e["res"] == "ok" and len(e["out"]) >= 2) >= 1,
         "after the last step of every replayed behaviour: key_history for every label with Complete and MostRecent(1..total+1), "
         "verified by key_history_verify with the same parameter (both verification modes); TLC requires the verified list = "
-        "HistoryOut(state, parameter). Non-trivial = distinct behaviours with a verified history of >= 2 versions.")
+        "HistoryOut(state, parameter). Non-trivial = distinct behaviours with a verified history of >= 2 versions.", with_long=True)
 
 def c04():
     return dir_check("C04", ["audit"],
@@ -160,7 +186,7 @@ def c04():
         "after the last step of every replayed behaviour: audit(s, e) for all 0 <= s < e <= epoch verified by audit_verify "
         "against the digests the publishes returned, plus refused ranges (s >= e, e > epoch); TLC requires ok exactly when "
         "AuditDefined and the hash chain = the published roots. Non-trivial = distinct behaviours with an accepted audit of a "
-        "range ending before the latest epoch (pruning by last_epoch / min_descendant_epoch matters).")
+        "range ending before the latest epoch (pruning by last_epoch / min_descendant_epoch matters).", with_long=True)
 
 def c20():
     return dir_check("C20", ["epoch_hash", "lookup", "history", "audit"],
@@ -264,6 +290,10 @@ def c14():
         for (par, cache, reopen, wire) in ccells:
             bs.append({"id": len(bs) + 1, "group": h, "cfg": ["wa", "exp"][h % 2], "conc": h % 3, "labels": labels, "values": values,
                        "cell": {"par": par, "cache": cache, "reopen": reopen, "wire": wire}, "kinds": [], "sweep": "end", "steps": steps})
+        # the same history on a multi-thread runtime: the tasks akd spawns (parallel insertion, preload, parallel VRF) run truly in parallel
+        for (par, cache) in (("s4", "none"), ("s2", "default")):
+            bs.append({"id": len(bs) + 1, "group": h, "cfg": ["wa", "exp"][h % 2], "conc": h % 3, "labels": labels, "values": values, "mt": True,
+                       "cell": {"par": par, "cache": cache, "reopen": "same", "wire": False}, "kinds": [], "sweep": "end", "steps": steps})
     # one long single-label history (70 versions: beyond every preload / batching bound in the code, crossing the
     # marker powers of two and the skip-list element 16 and 64), read back completely and in part
     for h2, cfgname in enumerate(["wa", "exp"]):
